@@ -19,6 +19,7 @@ PROFILE = {
     "hostile_values": True,
     "multi_call": (1, 2),
     "attempt_timeout": 0.05,
+    "offgrid_delays": 0.15,
 }
 
 
